@@ -79,6 +79,27 @@ ShadowCase(x) ==
              IF taken THEN ShadowFocusRegs(sh) ELSE {}, IF taken THEN ShadowFocusAddrs(sh, 64, 128) ELSE {},
              Tags(p, fin), [taken |-> taken, slow |-> slow])
 
+(* Shadow, second shape: the line of the shadow store is already Modified in some L1 (an earlier   *)
+(* load + store), k independent ALU instructions vary the dispatch alignment, the jump is always   *)
+(* taken; third shape: the shadow holds a jump whose target lies BEYOND the target of the branch.  *)
+Shadow2Cases == { <<"warm", k, br, st>> : k \in 0 .. 6, br \in {"beq", "j"}, st \in {Sw("t1", "a0", 48), Sb("t1", "a0", 33), Sh("t1", "a0", 50)} }
+                \cup { <<"far", k, br, Nop>> : k \in 0 .. 3, br \in {"bnez", "blt", "bgeu"} }
+Shadow2Case(x) ==
+  LET fill == [i \in 1 .. x[2] |-> I("sub", "t2", "t1", "t3", 0, 0)]
+      pre == IF x[1] = "warm" THEN <<Lw("t2", "a0", 32), Sw("t2", "a0", 40)>> \o fill ELSE <<Lw("t0", "a0", 0)>> \o fill
+      nb == Len(pre)                                     \* 0-based index of the branch
+      br == CASE x[3] = "beq" -> B("beq", "zero", "zero", nb + 3) [] x[3] = "j" -> J(nb + 3)
+              [] x[3] = "bnez" -> B("bnez", "t0", "zero", nb + 2) [] x[3] = "blt" -> B("blt", "t3", "t0", nb + 2)
+              [] x[3] = "bgeu" -> B("bgeu", "t0", "t3", nb + 2)
+      p == IF x[1] = "warm"
+           THEN pre \o <<br, x[4], Li("t2", 9), Addi("t3", "t3", 100), Addi("t1", "t3", 1), Nop>>
+           \* far: branch -> join (nb+2); shadow jump -> far (nb+4); join: addi; j end; far: li t2,77; end: nop
+           ELSE pre \o <<br, J(nb + 4), Addi("t3", "t3", 100), J(nb + 5), Li("t2", 77), Nop, Nop>>
+      r0 == Regs0(64, 128, 77, 5, 6, 0)
+      fin == Final(p, r0, "ones", 256, 64)
+      sh == IF x[1] = "warm" THEN <<x[4], Li("t2", 9)>> ELSE <<Li("t2", 77)>>
+  IN CaseRec("Shadow2", p, r0, "ones", 256, fin, ShadowFocusRegs(sh) \cup {"t3"}, ShadowFocusAddrs(sh, 64, 128), Tags(p, fin), [taken |-> TRUE, shape |-> x[1]])
+
 (* ------------------------------- RegDep (C04) ------------------------------ *)
 RegDepIns == { Lw("t0", "a0", 0), Li("t0", 5), Addi("t0", "t0", 1), AddI("t1", "t0", "t0"), I("mv", "t0", "t1", "zero", 0, 0),
                Addi("t1", "t0", 2), I("mul", "t1", "t1", "t0", 0, 0), Li("t1", 3), I("sub", "t0", "t1", "t0", 0, 0),
@@ -320,11 +341,11 @@ MisCase(x) ==
       fin == Final(p, r0, "ramp", 256, 64)
   IN CaseRec("Misaligned", p, r0, "ramp", 256, fin, {"t0", "t2"}, 64 .. 75, Tags(p, fin), [op |-> x[1], off |-> x[2]])
 
-Cases == CASE Family = "Shadow" -> ShadowCases [] Family = "Misaligned" -> MisCases [] Family = "Repo" -> RepoCases [] Family = "Unroll" -> UnrollCases [] Family = "Call" -> CallCases [] Family = "LineFill" -> LineFillCases
+Cases == CASE Family = "Shadow" -> ShadowCases [] Family = "Shadow2" -> Shadow2Cases [] Family = "Misaligned" -> MisCases [] Family = "Repo" -> RepoCases [] Family = "Unroll" -> UnrollCases [] Family = "Call" -> CallCases [] Family = "LineFill" -> LineFillCases
            [] Family = "RegDep" -> RegDepCases [] Family = "Tail" -> TailCases
            [] Family = "MemDep" -> MemDepCases [] Family = "MemWalk" -> WalkCases [] Family = "Err" -> ErrCases
            [] Family = "Timing" -> TimingCases
-MkCase(x) == CASE Family = "Shadow" -> ShadowCase(x) [] Family = "Misaligned" -> MisCase(x) [] Family = "Repo" -> RepoCase(x) [] Family = "Unroll" -> UnrollCase(x) [] Family = "Call" -> CallCase(x) [] Family = "LineFill" -> LineFillCase(x) [] Family = "RegDep" -> RegDepCase(x) [] Family = "Tail" -> TailCase(x)
+MkCase(x) == CASE Family = "Shadow" -> ShadowCase(x) [] Family = "Shadow2" -> Shadow2Case(x) [] Family = "Misaligned" -> MisCase(x) [] Family = "Repo" -> RepoCase(x) [] Family = "Unroll" -> UnrollCase(x) [] Family = "Call" -> CallCase(x) [] Family = "LineFill" -> LineFillCase(x) [] Family = "RegDep" -> RegDepCase(x) [] Family = "Tail" -> TailCase(x)
                [] Family = "MemDep" -> MemDepCase(x) [] Family = "MemWalk" -> WalkCase(x) [] Family = "Err" -> ErrCase(x)
                [] Family = "Timing" -> TimingCase(x)
 
